@@ -1,13 +1,17 @@
 import U3.Model.Pool
 import U3.Lemmas.Pool
 import U3.Lemmas.PoolInv
+import U3.Lemmas.PoolUnhold
 /-! # C01 — a pool never loses, duplicates or leaks connection slots, whatever the outcome
 
 Proved for **every history** (any list of `request` / `dispose` / `closePool` operations on a pool
 created with `maxsize = n > 0`, every per-attempt script, every configuration, every retry budget):
-the counting invariant `Inv` holds after the history (`C01_inv_reachable`); every exception a
-`urlopen` call raises is a urllib3 exception or an interrupt (`C01_errors_are_urllib3`, full
-statement); `maxsize` / `block` are never written (`C01_config_const`); a response that holds no
+the counting invariant `Inv` holds after the history (`C01_inv_reachable`) — the scripts include failures
+OUTSIDE the I/O steps of an attempt: before the checkout (a file-like body that cannot be rewound at a
+retry / redirect hop, a per-request timeout that `Timeout` rejects) and between two attempts (the wait
+raises: unparsable `Retry-After`, interrupted `time.sleep`); every exception a
+`urlopen` call raises is a urllib3 exception or an interrupt — or the `ValueError` for the caller's own
+invalid `timeout` argument (`C01_errors_are_urllib3`, full statement); `maxsize` / `block` are never written (`C01_config_const`); a response that holds no
 connection never holds one later (`C01_unheld_stays`), `release_conn()` makes it so
 (`C01_release_unholds`).  Consequences: with no response holding a connection the open pool offers
 exactly `n` slots (`C01_quiescent_slots_partial`), every connected connection is idle in the queue
@@ -82,27 +86,51 @@ example : Gen.cKeyboardInterrupt ∈ raisable ∧ Gen.cConnectionResetError ∈ 
 theorem C01_raisable_covers : ∀ c ∈ mrCls, c ∈ raisable := by decide
 
 /-- FULL statement (DESIGN Appendix E): after any history on a pool created with `maxsize = n > 0`,
-whatever a `urlopen` call raises — from `_get_conn`, from any I/O step of any attempt, from the
-retry machinery, from `_put_conn`, from draining a redirect / retry response — is a urllib3 exception
-(`HTTPError`) or an interrupt (a `BaseException` that is not an `Exception`; the fault scripts
-inject nothing else of that kind).  The lifting lemma that used to be missing is
+whatever a `urlopen` call raises — from `set_file_position`, from `_get_conn`, from any I/O step of any
+attempt, from the retry machinery, from the wait between two attempts, from `_put_conn`, from draining a
+redirect / retry response — is a urllib3 exception (`HTTPError`) or an interrupt (a `BaseException` that
+is not an `Exception`; the fault scripts inject nothing else of that kind).  The one exception that is
+neither is not a failure of the request: the `ValueError` raised for a per-request `timeout` argument
+that `Timeout` rejects (`rc.badTimeout`) — the caller's own argument error, raised before anything is
+taken from the pool (`C01_preflight_failure_takes_nothing`).  The lifting lemmas are
 `U3.Pool.makeRequest_inv` (classes leaving `_make_request`) + `U3.Pool.request_good` (control flow of
 `urlopen`, by induction over the attempt script). -/
 theorem C01_errors_are_urllib3 (n : Nat) (block proxy : Bool) (hn : 0 < n) (ops : List Op) (rid : Nat) (rc : ReqCfg)
     (retries : Retry) (script : List Attempt) (e : Exc)
     (h : (step (run (init n block proxy) ops) (.request rid rc retries script)).2 = .result (.raised e)) :
-    isUrllib3 e.cls = true ∨ isInterrupt e.cls = true := by
+    isUrllib3 e.cls = true ∨ isInterrupt e.cls = true ∨ (rc.badTimeout = true ∧ e.cls = Gen.cValueError) := by
   have hi := run_inv ops _ (init_inv n block proxy hn)
   have g := (request_good rid 0 script _ rc retries hi (Nat.zero_le _)).2.1 e (by
     have : (step (run (init n block proxy) ops) (.request rid rc retries script)).2
         = .result (request (run (init n block proxy) ops) rid rc retries script).2 := rfl
     rw [this] at h; injection h)
-  have : (isUrllib3 e.cls || isInterrupt e.cls) = true := g
-  simpa using this
+  have : ((isUrllib3 e.cls || isInterrupt e.cls) || (rc.badTimeout && e.cls == Gen.cValueError)) = true := g
+  simp only [Bool.or_eq_true, Bool.and_eq_true, beq_iff_eq] at this
+  rcases this with (h1 | h2) | h3
+  · exact Or.inl h1
+  · exact Or.inr (Or.inl h2)
+  · exact Or.inr (Or.inr h3)
 
 example : (match (step (run (init 1 true) []) (.request 0 {} .off [{ connect := .refused }])).2 with
     | .result (.raised e) => e.cls == Gen.cU3NewConnectionError
     | _ => false) = true := by decide
+
+/-- … in particular, with a valid `timeout` argument every failure is a urllib3 exception or an interrupt -/
+theorem C01_errors_are_urllib3_valid_timeout (n : Nat) (block proxy : Bool) (hn : 0 < n) (ops : List Op) (rid : Nat)
+    (rc : ReqCfg) (retries : Retry) (script : List Attempt) (e : Exc) (hb : rc.badTimeout = false)
+    (h : (step (run (init n block proxy) ops) (.request rid rc retries script)).2 = .result (.raised e)) :
+    isUrllib3 e.cls = true ∨ isInterrupt e.cls = true := by
+  rcases C01_errors_are_urllib3 n block proxy hn ops rid rc retries script e h with h1 | h2 | ⟨h3, _⟩
+  · exact Or.inl h1
+  · exact Or.inr h2
+  · rw [hb] at h3; cases h3
+
+example : ({} : ReqCfg).badTimeout = false ∧
+    (match (step (run (init 1 true) []) (.request 0 {} (.count 1)
+        [{ head := some { status := 503, close := false, cl := some 0, location := false, retryAfter := true },
+           wait := .invalidHeader }])).2 with
+      | .result (.raised e) => e.cls == Gen.cU3InvalidHeader
+      | _ => false) = true := by decide
 
 /-- the generated `except` tuple of `urlopen` really is consulted: an `OSError` subclass reaches the
 caller as `ProtocolError` (or `MaxRetryError`), never raw -/
@@ -298,5 +326,227 @@ theorem C01_preload_released :
       (match (step s (.request 1 { preload := true, release := false } .off [okAttempt])).2 with
        | .result (.resp _) => true
        | _ => false) = true := by decide
+
+/-! ### failures outside the I/O steps of an attempt: before the checkout, between two attempts -/
+
+/-- `block=True`: after EVERY history the free slots and the connections held by responses add up to
+exactly `n` (never `n + 1`: no slot is ever duplicated — what the repaired defect `put-without-checkout`
+broke; the harness oracle `slot-surplus` is this statement on the implementation) -/
+theorem C01_block_slots_exact (n : Nat) (proxy : Bool) (hn : 0 < n) (ops : List Op)
+    (hc : (run (init n true proxy) ops).closed = false) :
+    (run (init n true proxy) ops).queue.length + (held (run (init n true proxy) ops)).length = n := by
+  have h := C01_inv_reachable n true proxy hn ops
+  have k := C01_config_const n true proxy hn ops
+  have h1 := h.slotsB hc k.2
+  rw [k.1] at h1
+  simpa using h1
+
+example : (run (init 2 true) [.request 0 { preload := false, release := false } .off
+      [{ head := some { status := 200, close := false, cl := some 2, location := false, retryAfter := false }, body := [1, 2] }]]).closed
+    = false := by decide
+
+/-- a failure before the `try:` of `urlopen` — a file-like body that cannot be rewound at this hop
+(`UnrewindableBodyError`), a per-request timeout that `Timeout` rejects (`ValueError`) — leaves the pool
+exactly as it was, in EVERY state: nothing is taken, nothing is put back, nothing is logged -/
+theorem C01_preflight_failure_takes_nothing (s : State) (rid : Nat) (rc : ReqCfg) (retries : Retry) (a : Attempt)
+    (rest : List Attempt) (e : Exc) (h : preflight rc a = some e) :
+    request s rid rc retries (a :: rest) = (s, .raised e) := by
+  rw [request, h]
+
+example : preflight { badTimeout := true } {} = some (exc Gen.cValueError) ∧
+    preflight { fileBody := true, bodyPos := true } { pre := .unrewindable } = some (exc Gen.cU3UnrewindableBodyError) := by
+  decide
+
+def stream200 : Attempt :=
+  { head := some { status := 200, close := false, cl := some 2, location := false, retryAfter := false }, body := [1, 2] }
+
+/-- the history of the repaired defect `put-without-checkout` (`known_findings/C01.json`): `block=True`,
+`maxsize=2`, one streamed response outstanding, then `urlopen(..., timeout=-1)`.  Before the repair the
+`ValueError` was raised inside the `try:` and the `finally` clause put back a `None` that was never taken:
+2 free slots + 1 outstanding response, and three connections open at once two requests later.  Now: the
+`ValueError` reaches the caller, nothing is put back (no `put` event), the pool still offers 1 free slot,
+and of two further streamed requests the second is refused (`EmptyPoolError`): never more than 2 sockets -/
+theorem C01_bad_timeout_takes_no_slot :
+    let s1 := run (init 2 true) [.request 0 streamCfg .off [stream200]]
+    let x := step { s1 with log := [] } (.request 1 { streamCfg with badTimeout := true } .off [stream200])
+    let s3 := run x.1 [.request 2 streamCfg .off [stream200]]
+    (match x.2 with
+     | .result (.raised e) => e.cls == Gen.cValueError
+     | _ => false) = true ∧
+    x.1.log = [] ∧ x.1.queue.length = 1 ∧ (held x.1).length = 1 ∧
+    s3.queue.length = 0 ∧ s3.socks.length = 2 ∧
+    (match (step s3 (.request 3 streamCfg .off [stream200])).2 with
+     | .result (.raised e) => e.cls == Gen.cU3EmptyPoolError
+     | _ => false) = true := by decide
+
+def retry503 (w : WaitOut) : Attempt :=
+  { head := some { status := 503, close := false, cl := some 2, location := false, retryAfter := true }, body := [1, 2], wait := w }
+
+def redirect302 (w : WaitOut) : Attempt :=
+  { head := some { status := 302, close := false, cl := some 2, location := true, retryAfter := true }, body := [1, 2], wait := w }
+
+/-- the wait between two attempts raises (`Retry-After: soon` → `InvalidHeader`; `time.sleep` interrupted)
+with `preload_content=False`, after a 503 that is retried and after a 302 that is followed: the
+intermediate response has been drained BEFORE the wait, so its connection is back in the pool — the
+`block=True, maxsize=1` pool offers its slot, no response holds a connection, and the next request is
+served on the same socket (a `urlopen` that waited first and drained afterwards would lose the slot:
+seeded defect C01-m3) -/
+theorem C01_wait_failure_slot_is_back :
+    ∀ a ∈ [retry503 .invalidHeader, retry503 .interrupt, redirect302 .invalidHeader, redirect302 .interrupt],
+      let x := step (init 1 true) (.request 0 streamCfg (.count 2) [a, stream200])
+      (match x.2 with
+       | .result (.raised e) => e.cls == Gen.cU3InvalidHeader || e.cls == Gen.cKeyboardInterrupt
+       | _ => false) = true ∧
+      x.1.queue = [some 0] ∧ held x.1 = [] ∧
+      (match (step x.1 (.request 1 streamCfg .off [stream200])).2 with
+       | .result (.resp _) => true
+       | _ => false) = true ∧
+      (step x.1 (.request 1 streamCfg .off [stream200])).1.socks.length = 1 := by decide
+
+/-- a retry / redirect hop of a request with a file-like body that cannot be rewound, while another
+response is outstanding on a `block=True, maxsize=2` pool: `UnrewindableBodyError`, and the hop — which
+never took a connection — puts nothing back: 1 free slot + 1 outstanding response (a `urlopen` that
+rewinds inside its `try:` would put a `None` back here: seeded defect C01-m6) -/
+theorem C01_unrewindable_hop_takes_no_slot :
+    let s1 := run (init 2 true) [.request 0 streamCfg .off [stream200]]
+    let x := step s1 (.request 1 { fileBody := true } (.count 2) [redirect302 .ok, { stream200 with pre := .unrewindable }])
+    (match x.2 with
+     | .result (.raised e) => e.cls == Gen.cU3UnrewindableBodyError
+     | _ => false) = true ∧
+    x.1.queue.length = 1 ∧ (held x.1).length = 1 := by decide
+
+/-! ### no intermediate response of a retry / redirect chain keeps a connection, however the chain ends -/
+
+/-- after EVERY history, whatever a `urlopen` call raises — exhausted budget after a drained 3xx / 503, a fault
+while draining, `InvalidHeader` or an interrupt in the wait between two attempts, `UnrewindableBodyError` at the
+next hop, a fault in a later attempt … — every response that holds a connection after the call held that very
+connection before it.  None of the responses created during the call (the intermediate responses of the retry /
+redirect chain, which the caller never sees) keeps a connection: `urlopen` drains an intermediate response before it
+does anything else that can fail, and a drain — successful or not — gives the connection back
+(`U3.Pool.drainConn_unholds`, `U3.Pool.request_hold`).  The seeded defect C01-m3 (wait first, drain afterwards)
+is exactly a `urlopen` for which this statement is false. -/
+theorem C01_failed_call_holds_nothing (n : Nat) (block proxy : Bool) (hn : 0 < n) (ops : List Op) (rid : Nat) (rc : ReqCfg)
+    (retries : Retry) (script : List Attempt) (e : Exc)
+    (h : (step (run (init n block proxy) ops) (.request rid rc retries script)).2 = .result (.raised e)) :
+    ∀ (r : Nat) (rs : Resp), (step (run (init n block proxy) ops) (.request rid rc retries script)).1.resps[r]? = some rs →
+      rs.conn ≠ none → ∃ rs0 : Resp, (run (init n block proxy) ops).resps[r]? = some rs0 ∧ rs0.conn = rs.conn := by
+  have hh := request_hold (A := fun _ _ => True) rid script _ rc retries (prov_reachable n block proxy ops)
+    (C01_inv_reachable n block proxy hn ops) (fun _ _ => trivial)
+  have e2 : (request (run (init n block proxy) ops) rid rc retries script).2 = .raised e := by
+    have : (step (run (init n block proxy) ops) (.request rid rc retries script)).2
+        = .result (request (run (init n block proxy) ops) rid rc retries script).2 := rfl
+    rw [this] at h; injection h
+  rw [e2] at hh
+  intro r rs g hne
+  rcases hh r rs g hne with q | q
+  · cases q
+  · exact q
+
+example : (step (run (init 1 true) []) (.request 0 streamCfg (.count 2) [retry503 .invalidHeader, stream200])).2
+    = .result (.raised (exc Gen.cU3InvalidHeader)) := rfl
+
+/-- … and when the call returns a response, that response is the only one that may have started holding a
+connection: every intermediate response of the chain has given its connection back -/
+theorem C01_intermediate_responses_hold_nothing (n : Nat) (block proxy : Bool) (hn : 0 < n) (ops : List Op) (rid : Nat)
+    (rc : ReqCfg) (retries : Retry) (script : List Attempt) (r0 : Nat)
+    (h : (step (run (init n block proxy) ops) (.request rid rc retries script)).2 = .result (.resp r0)) :
+    ∀ (r : Nat) (rs : Resp), (step (run (init n block proxy) ops) (.request rid rc retries script)).1.resps[r]? = some rs →
+      rs.conn ≠ none → r = r0 ∨ ∃ rs0 : Resp, (run (init n block proxy) ops).resps[r]? = some rs0 ∧ rs0.conn = rs.conn := by
+  have hh := request_hold (A := fun _ _ => True) rid script _ rc retries (prov_reachable n block proxy ops)
+    (C01_inv_reachable n block proxy hn ops) (fun _ _ => trivial)
+  have e2 : (request (run (init n block proxy) ops) rid rc retries script).2 = .resp r0 := by
+    have : (step (run (init n block proxy) ops) (.request rid rc retries script)).2
+        = .result (request (run (init n block proxy) ops) rid rc retries script).2 := rfl
+    rw [this] at h; injection h
+  rw [e2] at hh
+  intro r rs g hne
+  rcases hh r rs g hne with q | q
+  · left; cases q; rfl
+  · exact Or.inr q
+
+example : (step (run (init 1 true) []) (.request 0 streamCfg (.count 2) [redirect302 .ok, stream200])).2
+    = .result (.resp 1) := rfl
+
+/-- consequence: a failing `urlopen` call on a pool on which no response holds a connection leaves a pool on
+which no response holds a connection — the open pool offers exactly `n` slots again, whatever the failure
+(every history before the call, every script, configuration and budget) -/
+theorem C01_failed_call_quiescent (n : Nat) (block proxy : Bool) (hn : 0 < n) (ops : List Op) (rid : Nat) (rc : ReqCfg)
+    (retries : Retry) (script : List Attempt) (e : Exc)
+    (hq : held (run (init n block proxy) ops) = [])
+    (h : (step (run (init n block proxy) ops) (.request rid rc retries script)).2 = .result (.raised e)) :
+    held (step (run (init n block proxy) ops) (.request rid rc retries script)).1 = [] ∧
+    ((step (run (init n block proxy) ops) (.request rid rc retries script)).1.closed = false →
+      (step (run (init n block proxy) ops) (.request rid rc retries script)).1.queue.length = n) := by
+  have hi := C01_inv_reachable n block proxy hn ops
+  have key := C01_failed_call_holds_nothing n block proxy hn ops rid rc retries script e h
+  have hold0 : ∀ rs0 ∈ (run (init n block proxy) ops).resps, rs0.conn = none := by
+    intro rs0 hm
+    simp only [held, List.filterMap_eq_nil_iff] at hq
+    exact hq rs0 hm
+  have hnew : held (step (run (init n block proxy) ops) (.request rid rc retries script)).1 = [] := by
+    simp only [held, List.filterMap_eq_nil_iff]
+    intro rs hm
+    obtain ⟨r, hr, hget⟩ := List.mem_iff_getElem.mp hm
+    cases hc : rs.conn with
+    | none => rfl
+    | some c =>
+      have g : (step (run (init n block proxy) ops) (.request rid rc retries script)).1.resps[r]? = some rs := by
+        rw [List.getElem?_eq_getElem hr, hget]
+      obtain ⟨rs0, g0, e0⟩ := key r rs g (by rw [hc]; simp)
+      have := hold0 rs0 (List.mem_of_getElem? g0)
+      rw [e0, hc] at this; cases this
+  refine ⟨hnew, ?_⟩
+  intro hcl
+  have h' := step_inv' (.request rid rc retries script) hi
+  have k := step_keep (.request rid rc retries script) hi
+  have := (C01_quiescent_of_inv h' hcl hnew).1
+  rw [this, k.msz, (C01_config_const n block proxy hn ops).1]
+
+example : held (run (init 1 true) []) = [] ∧
+    (step (run (init 1 true) []) (.request 0 streamCfg (.count 2) [redirect302 .interrupt, stream200])).2
+      = .result (.raised (exc Gen.cKeyboardInterrupt)) := ⟨rfl, rfl⟩
+
+/-! ### `block=True`: never more than `n` connected connections -/
+
+/-- the connections that have a socket -/
+def connected (s : State) : List Nat :=
+  (List.range s.conns.length).filter fun c =>
+    match s.conns[c]? with
+    | some cn => cn.sock.isSome
+    | none => false
+
+/-
+Full statement (DESIGN Appendix E): (statement) C01_block_bound : block → number of open sockets ≤ n, always.
+FALSE on this tree as stated (known finding `block-bound-exceeded:unread-response-after-release`): the reader of a
+`Connection: close` / read-until-close response whose connection went back to the pool unread keeps the detached
+socket open while the pool connects another one.  Proved, for EVERY history (new outcomes included): the number of
+CONNECTIONS that have a socket never exceeds `n` on an open `block=True` pool — every connected connection is idle in
+the queue or held by a response (`Inv.live`), those are pairwise distinct (`Inv.nodup`), and free slots + held
+connections = `n` (`C01_block_slots_exact`).  The missing part is exactly the sockets referenced by a reader only.
+-/
+theorem C01_block_bound_partial (n : Nat) (proxy : Bool) (hn : 0 < n) (ops : List Op)
+    (hc : (run (init n true proxy) ops).closed = false) :
+    (connected (run (init n true proxy) ops)).length ≤ n := by
+  have h := C01_inv_reachable n true proxy hn ops
+  have hs := C01_block_slots_exact n proxy hn ops hc
+  generalize run (init n true proxy) ops = s at h hs
+  have nd : (connected s).Nodup := (List.filter_sublist (l := List.range s.conns.length)).nodup List.nodup_range
+  have sub : connected s ⊆ owned s [] := by
+    intro c hcm
+    simp only [connected, List.mem_filter, List.mem_range] at hcm
+    obtain ⟨_, hb⟩ := hcm
+    cases hcn : s.conns[c]? with
+    | none => simp [hcn] at hb
+    | some cn =>
+      simp only [hcn] at hb
+      exact h.live c cn hcn (by intro hx; rw [hx] at hb; cases hb)
+  have l1 := nd.length_le_of_subset sub
+  have l2 : (owned s []).length ≤ s.queue.length + (held s).length := by
+    simp only [owned, queued, List.length_append, List.nil_append]
+    exact Nat.add_le_add_right (List.length_filterMap_le _ _) _
+  omega
+
+example : let s := run (init 1 true) [.request 0 streamCfg .off [stream200]]
+    s.closed = false ∧ connected s = [0] := by decide
 
 end U3.Props
